@@ -35,6 +35,19 @@ static int spec_scalar_is_zero(const secp256k1_scalar *a) { return (a->d[0] | a-
 /* full contract = abstract part + the value */
 #define PI_POST(PEQ, ret, r, newp, oldp, avail, I) (PI_POST_ABS(PEQ, ret, r, newp, oldp, avail, I) && PI_VALUE(ret, r, oldp, I))
 
+#ifdef C03_PI_FRAME_ONLY
+/* ENFORCED variant (unit C03.der.parse_integer.frame, --enforce-contract): the frame of the contract below - only
+ * *r and *sig are written, the read pointer stays inside [old, sigend] - checked by DFCC against the real body.
+ * The functional part (PI_POST) is proved by the harness unit C03.der.parse_integer. */
+static int secp256k1_der_parse_integer(secp256k1_scalar *r, const unsigned char **sig, const unsigned char *sigend)
+__CPROVER_requires(__CPROVER_w_ok(r, sizeof(*r)) && __CPROVER_rw_ok(sig, sizeof(*sig)))
+__CPROVER_requires(__CPROVER_same_object(*sig, sigend) && __CPROVER_POINTER_OFFSET(*sig) <= __CPROVER_POINTER_OFFSET(sigend) && (*sig == sigend || __CPROVER_r_ok(*sig, sigend - *sig)))
+__CPROVER_assigns(*r, *sig)
+__CPROVER_ensures(__CPROVER_return_value == 0 || __CPROVER_return_value == 1)
+__CPROVER_ensures(__CPROVER_return_value == 1 ==> (__CPROVER_same_object(*sig, sigend) && __CPROVER_POINTER_OFFSET(*sig) <= __CPROVER_POINTER_OFFSET(sigend) &&
+                  __CPROVER_POINTER_OFFSET(*sig) >= __CPROVER_POINTER_OFFSET(__CPROVER_old(*sig)) + 3 && scalar_ok(r)))
+;
+#else
 /* ghost call log */
 int g_pi_n; size_t g_pi_off0, g_pi_off1, g_pi_av0, g_pi_av1; spec_int g_pi_cur, g_pi_I0, g_pi_I1; secp256k1_scalar g_pi_v0, g_pi_v1;
 #define I_SAME(a, b) ((a).ok == (b).ok && (a).total == (b).total && (a).inrange == (b).inrange)
@@ -52,4 +65,5 @@ __CPROVER_ensures(g_pi_n == __CPROVER_old(g_pi_n) + 1)
 __CPROVER_ensures(PI_POST_ABS(PEQ_DFCC, __CPROVER_return_value, r, *sig, __CPROVER_old(*sig), (size_t)(sigend - __CPROVER_old(*sig)), g_pi_cur))
 PI_SLOT(0) PI_SLOT(1)
 ;
+#endif /* !C03_PI_FRAME_ONLY */
 #endif
